@@ -1,17 +1,34 @@
 import Clover.Props.C13
 import Clover.Props.C14
 import Clover.Spec.Render
+import Clover.Proofs.RefineScan
 /-! # C06 — documents, index entries and counts stay consistent (representation invariant) -/
 namespace CV.Props.C06
 open CV
 
-/-- The representation invariant: the store is the rendering of some abstract state (one metadata
-    record per collection whose size is the number of documents, one record per document, exactly
-    one index entry per document per indexed field under the document's current value). -/
-def Inv (σ : KVS) : Prop := ∃ sp : Spec.State, σ = Spec.render sp
+/-- The representation invariant (`CV.Inv`): the store is sorted and holds, key by key, exactly
+    the entries of some well-formed abstract state — one metadata record per collection whose size
+    is the number of documents, one record per document under the key of its `_id`, exactly one
+    index entry per document per indexed field under the document's current value, nothing else. -/
+theorem inv_init : Inv [] := CV.inv_init
 
-/-- The empty database satisfies the invariant. -/
-theorem inv_init : Inv [] := ⟨[], rfl⟩
+/-- A store is determined by the abstract state it represents: two stores representing the same
+    state are equal (so "drops leave no residue" is: the store after a drop is THE store of the
+    state without the dropped collection / index). -/
+theorem rep_determines_store (s : Spec.State) (σ σ' : KVS) (h : Rep s σ) (h' : Rep s σ') : σ = σ' :=
+  rep_unique s σ σ' h h'
+
+/-- Under the invariant the count used by `Count` is the number of stored documents … -/
+theorem size_is_number_of_documents (s : Spec.State) (σ : KVS) (hr : Rep s σ) (c : Bytes) (coll : Spec.Coll)
+    (hl : Spec.lookup c s = some coll) :
+    kvGet σ (Keys.metaKey c) = some (.cmeta ⟨coll.docs.length, coll.indexes⟩) := by
+  rw [hr.2, assoc_meta, hl]; rfl
+
+/-- … and what is stored under a collection's document prefix is exactly its documents. -/
+theorem documents_exact (s : Spec.State) (σ : KVS) (hw : WF s) (hr : Rep s σ) (c : Bytes) (coll : Spec.Coll)
+    (hc : Keys.Clean c) (hl : Spec.lookup c s = some coll) (hcw : CollWF coll) :
+    σ.filter (fun e => Keys.isPrefix (Keys.docPrefix c) e.1) = docEntries c coll :=
+  doc_block s σ hw hr c coll hc hl hcw
 
 /-- Dropping or scanning one index can only meet that index's own entries (see C14), and a
     document scan only that collection's documents (see C13): the frame lemmas the invariant's
